@@ -59,11 +59,12 @@ def classifyNoStun (r : Bytes) : RClass :=
   else .unknown
 
 /-- protocol family of a reply `r` to the payload `p`: a reply of STUN shape is a STUN response only if it
-    carries the payload's 128-bit transaction id (bytes 4..19) — an ONC-RPC reply echoing an xid `01 01 …`, or a
-    DNS response with id `01 01`, has the STUN shape but not the transaction id -/
+    carries the payload's 128-bit transaction id (bytes 4..19) and its length field is below 2^15 — an ONC-RPC
+    reply echoing an xid `01 01 …` has the STUN shape but not the transaction id; a DNS response with id `01 01`
+    has the QR bit, i.e. the top bit of the would-be STUN length, set -/
 def classifyFor (p r : Bytes) : RClass :=
   match classify r with
-  | .stun => if sub r 4 16 = sub p 4 16 then .stun else classifyNoStun r
+  | .stun => if u8 r 2 < 128 ∧ sub r 4 16 = sub p 4 16 then .stun else classifyNoStun r
   | c => c
 
 def classId : RClass → Option Nat
